@@ -472,6 +472,11 @@ class ConcHarness:
                 if c["task"].cancelled():
                     r = ("cancelled-native", None)
                     results[name] = r
+                    if c.get("cancel_delivered") is None:
+                        # nobody cancelled this caller: a CancelledError that belongs to another task reached it (stored and re-raised)
+                        viol("C15", "undocumented-exception", f"caller {name}, which nobody cancelled, ended with asyncio.CancelledError", leaked="asyncio.CancelledError")
+                        viol("C12", "collateral-cancellation", f"caller {name}, which nobody cancelled, ended with a CancelledError that belongs to another caller's task")
+                        viol("C08", "collateral-failure", f"caller {name} ended with a foreign CancelledError")
                 else:
                     viol("C07", "no-result", f"caller {name} finished without result")
                     continue
@@ -783,6 +788,11 @@ def scenarios(pid, tier):
         # multiplexing inside a CONNECT tunnel / behind SOCKS (the wrapper connections must not serialise the streams)
         for ct in (["tunnel-h2"] if quick else ["tunnel-h2", "socks-h2"]):
             out.append(S(ct, ["req:a:w", "req:a", "req:a"], max_connections=1, h2script={"frag": 1}, early=False))
+        # the caller whose task happens to read on behalf of every stream is cancelled at each of its suspension points: whatever that
+        # one stream suffers, the other runs to completion with its own response
+        for ct in (["h2pk"] if quick else ["h2pk", "h2alpn"]):
+            out.append(S(ct, ["req:a:w", "req:a:v", "req:a"], max_connections=1, cancels=1, styles=["scope", "native"],
+                         h2script={"frag": 2}, early=False))
         # a stream abandoned by a cancelled caller whose trace callback suspends must give its slot back (limit 1: the next one needs it)
         for ct in (["h2pk"] if quick else ["h2pk", "h2alpn"]):
             out.append(S(ct, ["req:a:w", "req:a:v", "req:a"], max_connections=1, cancels=1, styles=["scope"], trace=True,
